@@ -168,11 +168,7 @@ impl<L: Localize> OpeningHours<L> {
                     },
                 ),
                 (RuleOperator::Fallback, _) => {
-                    if prev_match
-                        && !(prev_eval.as_ref())
-                            .map(Schedule::is_always_closed)
-                            .unwrap_or(false)
-                    {
+                    if (prev_eval.as_ref()).is_some_and(|sched| !sched.is_always_closed()) {
                         (prev_match, prev_eval)
                     } else {
                         (curr_match, curr_eval)
